@@ -441,8 +441,20 @@ def only_stop_paths_stop(ck):
         owner = F.fns.get(f.lambda_of) if f.lambda_of else None
         host = owner or f
         short = strip_tmpl(host.name).replace("QtLogger::", "")
-        ok = host.d.get("kind") == "dtor" and strip_tmpl(host.cls or "") == "QtLogger::OwnThreadHandler" or \
-            (owner is not None and strip_tmpl(owner.name).endswith("OwnThreadHandler::moveToOwnThread"))
+        # the quit hook by role, not by the name of the function that installs it: the lambda (or a private method it only forwards to) is an
+        # argument of a connect() whose signal is QCoreApplication::aboutToQuit
+        def is_quit_hook(lam_fn):
+            if lam_fn is None or owner is None:
+                return False
+            for c_ in owner.calls():
+                if strip_tmpl(c_.get("callee") or "").split("::")[-1] != "connect":
+                    continue
+                sig_ = any(x.get("k") in ("ref", "member", "unop") and "aboutToQuit" in ((x.get("name") or "") + describe(x)) for a_ in c_.get("args", []) for x in walk(a_))
+                fun_ = any(x.get("k") == "lambda" and x.get("fn") == lam_fn.id for a_ in c_.get("args", []) for x in walk(a_))
+                if sig_ and fun_:
+                    return True
+            return False
+        ok = (host.d.get("kind") == "dtor" and strip_tmpl(host.cls or "") == "QtLogger::OwnThreadHandler") or is_quit_hook(f if owner is not None else None)
         key = (short, ok)
         if ok:
             n_ok += 1
@@ -453,4 +465,4 @@ def only_stop_paths_stop(ck):
         ck.ob("C03-O11", sitestr(f, n), False, "%s stops the logger thread for a purpose of its own: until it is started again every log call of another thread finds the handler synchronous and runs the "
               "pipeline, sinks included, inside the logging call" % short, key="stop-path|%s" % short)
     ck.require(n_ok >= 2, "the two sanctioned stop paths (destructor, aboutToQuit hook) were not both found (%d)" % n_ok)
-    ck.ob("C03-O11", "src/qtlogger/ownthreadhandler.h (OwnThreadHandler)", True, "%d call sites of resetOwnThread() in the library, all in the destructor or the aboutToQuit hook" % n_ok, key="stop-path|sanctioned")
+    ck.ob("C03-O11", "src/qtlogger/ownthreadhandler.h (OwnThreadHandler)", True, "%d call sites of resetOwnThread() in the library, all in the destructor or in the functor connected to QCoreApplication::aboutToQuit" % n_ok, key="stop-path|sanctioned")
